@@ -925,6 +925,8 @@ def compute_correlations_nt(
             prog_bar.update(i)
             first_times = schedule[i][0:-1]
             last_times = schedule[i][-1]
+            if len(last_times) == 0:
+                continue # an empty selection of times for the last operator
 
             #check time ordering
             ft = np.array(first_times)
